@@ -20,7 +20,7 @@ META = dict(
                 "2-6 node runs is validated by TLC against BitswapNet."),
     level_note=("Trusted: testnet.VirtualNetwork, mock routing, harness projection (CID<->index, peer<->node, byte equality) and its event "
                 "order (run mutex; Request/AddBlock/Cancel logged before the call, Deliver/Close after). Liveness on real code is a deadline "
-                "(30 s); want-list cleanup is read after a settle loop (10 s). Seven open findings are named deviations with narrow guards."),
+                "(60 s: the message queue re-sends a want 30-45 s after it was sent); want-list cleanup is read after a settle loop (10 s). Open findings are named deviations whose guards state the mechanism of the race."),
     technique="TLA+ contract + protocol model checked by TLC; TLC-generated scripts replayed on real nodes; recorded traces validated by TLC",
 )
 
@@ -63,7 +63,7 @@ def run(ctx):
                C37_PAR=6 if ctx.quick else 8)
     ctx.assumptions += ["VirtualNetwork delivers messages in order per receiver with the configured latency",
                         "blocks are only added, never deleted, during a run",
-                        "liveness = completion within 30 s of a request whose keys are all held by neighbours (or announced locally)",
+                        "liveness = completion within 60 s (the message queue re-sends unanswered wants after 30-45 s) of a request whose keys are all held by neighbours (or announced locally)",
                         "want-list cleanup is observed after a settle loop of at most 10 s"]
     ctx.cov["rule"] = ("M: BitswapProto scenarios Shared/Local/Two/Exhaust/Late/Cross, repaired design must pass, as-built must fail. "
                        "G: every behaviour of the caller-step generator (GenBitswapNet*: BFS over request/await/cancel/close/add/"
